@@ -26,6 +26,8 @@
                                                        C20_expander_carry_exact, C20_carry_unbounded_in_ratio
    * write side: one block of input and its images   -- C20_compress_live_bounded *)
 From P7 Require Import Prelude Decomp Mem.
+From P7 Require DecompGen.
+From P7gen Require DecompChain.
 Open Scope Z_scope.
 
 (* ---- decoders that honour max_length ------------------------------------- *)
@@ -361,3 +363,20 @@ Example C20_worker_peak_honest :
                         TL (map TI [1; 2; 3; 4; 5; 6; 7; 8]); TI 80; TI 10; TL []])
   = TL [TI 0; TL [t_bytes (rep_each 10 [1; 2; 3; 4; 5; 6; 7; 8]); TI 24; TI 0]].
 Proof. exact worker_peak_honest. Qed.
+
+(* ---- third wave (stage 7): SevenZipDecompressor._decompress / _read_data / decompress as translated on this run from
+   py7zr/compressor.py (gen/DecompChain.v) ARE Decomp.v's run_chain / read_data / decompress: for every object state, every
+   file content, every max_length and every read-schedule element rd (the most this call's fp.read returns), with the same
+   abstract stage decoders `dstep` on both sides.  DecompGen.st_of o fp is the model state of the object o with the unread
+   file fp; DecompGen.of_st st digest delivered the object of a model state (self.digest / self._delivered are not in
+   Decomp.v's state).  The digest goes through the generated helpers.calculate_crc32 (fuel for its block loop). ---- *)
+
+(* every theorem of this file about `decompress dstep st ml rd = Ok (st', out)` applies to a call of the generated method that
+   returns: the model call it stands for *)
+Theorem C20_gen_decompress_is_model_call :
+  forall (stage : Type) (dstep : stage -> bytes -> Z -> stage * bytes) (zcrc32 : bytes -> Z -> Z)
+         (self o' : DecompChain.SevenZipDecompressor stage) fp fp' fuel ml rd out,
+  DecompChain.SevenZipDecompressor_decompress stage dstep zcrc32 self fp fuel ml rd = Ok ((o', out), fp') ->
+  decompress dstep (DecompGen.st_of stage self fp) ml rd = Ok (DecompGen.st_of stage o' fp', out).
+Proof. exact DecompGen.gen_decompress_ok_inv. Qed.
+Print Assumptions C20_gen_decompress_is_model_call.
